@@ -21,7 +21,7 @@ def ph_params(rng, small=False):
 
 def cu_params(rng, small=False):
     known = rng.random() < 0.4
-    return {"target": rng.choice([0.5, 2.0]) if known else None, "sd_hat": rng.choice([1.0, 1.5]) if known else None,
+    return {"target": rng.choice([0.5, 2.0, 0.0, 0]) if known else None, "sd_hat": rng.choice([1.0, 1.5]) if known else None,
             "burn_in": rng.choice([2, 3]) if small else rng.choice([2, 5, 10, 30]),
             "delta": rng.choice([0.005, 0.05, 0.5]), "threshold": rng.choice([1.0, 3.0]) if small else rng.choice([3, 5, 10, 50]),
             "direction": rng.choice([None, "positive", "negative"])}
